@@ -115,8 +115,16 @@ class Scenario:
                     env.log("service-create", id=desc["id"])
                     keep.append(kit.service_class(desc)())
 
+        if params.get("stop_by") == "fail":
+            # the runtime goes down through the failure path instead of shutdown()
+            kit.submit(self._note({"id": "failing", "flavour": "threading",
+                                   "steps": [("sleep", stop_at), ("log", "stop-call"),
+                                             ("raise", "LookupError")]}))
+
         def driver():
             runtime.running.wait()
+            if params.get("stop_by") == "fail":
+                return
             if stop_at > env.now:
                 env.sleep(stop_at - env.now)
             env.log("stop-call")
@@ -306,6 +314,10 @@ def scenario_params(tier):
         for shielded, late_at in ((0.5, 1.5), (5.0, 1.0), (5.0, 1.5), (5.0, 2.5), (5.0, 4.0)):
             out.append({"race": True, "late": [(context, flavour, "adopt", 2)],
                         "late_at": late_at, "stop_at": 1.0, "shielded": shielded})
+        # the same while the runtime comes down because a payload failed
+        for late_at in (1.0, 2.5):
+            out.append({"race": True, "stop_by": "fail", "late": [(context, flavour, "adopt", 2)],
+                        "late_at": late_at, "stop_at": 1.0, "shielded": 5.0})
     return out
 
 
